@@ -127,8 +127,9 @@ def run(tier, replay=None):
             if export and len(hists) != r.distinct:
                 v.notes.append("config %s: exported %d histories for %d distinct states" % (name, len(hists), r.distinct))
             step = 1
-            if tier == "quick" and len(hists) > 6000:
-                step = len(hists) // 6000 + 1
+            cap = 6000 if tier == "quick" else 25000      # thorough: a seed-dependent stride too (the full sets reach tens of GB of trace)
+            if len(hists) > cap:
+                step = len(hists) // cap + 1
             sel = hists[vlib.seed() % step::step] if step > 1 else hists
             sp = os.path.join(out, "hist_%s.txt" % name)
             with open(sp, "w") as f:
@@ -181,7 +182,15 @@ def run(tier, replay=None):
                     cur = []
                 else:
                     cur.append(line[:60])
-        tv = vlib.validate_trace(PID, "KeyedPQTrace", tp, tag="tv_" + os.path.basename(tp))
+        # the sanitizer build replays the same scripts: when its trace is byte-identical to the release build's (the rule), the
+        # verdict on that one stands for both; it is validated on its own only if it differs
+        twin = tp.replace("_san.ndjson", "_rel.ndjson")
+        if tp.endswith("_san.ndjson") and twin != tp and os.path.exists(twin) and src is not None:
+            import filecmp
+            if filecmp.cmp(tp, twin, shallow=False):
+                v.notes.append("%s: trace identical to the release build's, verdict shared" % desc) if len(v.notes) < 12 else None
+                continue
+        tv = vlib.validate_trace(PID, "KeyedPQTrace", tp, tag="tv_" + os.path.basename(tp), timeout=3000)
         v.add_tlc(tv.tlc, "KeyedPQTrace over " + desc)
         for rj in tv.rejects:
             if rj["rule"].startswith("harness-") or rj["rule"] == "unknown-op":
